@@ -174,7 +174,7 @@ fn c14_t_xls_ref3d_row65535() {
 #[kani::proof]
 #[kani::unwind(18)]
 #[kani::stub(crate::utils::push_column, crate::k_kcommon::model_push_column_l1)]
-fn c14_q_xls_area3d() {
+fn c14_t_xls_area3d() {
     let ixti: u16 = kani::any();
     kani::assume(ixti < 2);
     let t0: i16 = kani::any();
